@@ -1165,7 +1165,9 @@ func (em *emitter) emitForRange(node *ast.ForRange) {
 		name := vars[0].(*ast.Identifier).Name
 		indexType = em.typ(vars[0])
 		if node.Assignment.Type == ast.AssignmentDeclaration {
-			index = em.fb.newRegister(reflect.Int)
+			// The first variable is the index of a slice, array or string,
+			// the key of a map or the element of a channel.
+			index = em.fb.newRegister(indexType.Kind())
 			if em.varStore.mustBeDeclaredAsIndirect(vars[0].(*ast.Identifier)) {
 				indirectIndex = em.fb.newIndirectRegister()
 				em.fb.emitNew(indexType, -indirectIndex)
